@@ -2,7 +2,7 @@
 from facts import AnalysisBroken
 from model import (dstr, strip, fact_holds, mentions_field, mentions_call, mentions_var,
                    mentions_enum, const_value, walk)
-from rules import (stores_to, guarded, calls_to, field_writes, who_may_write, loops_over, basename, origins,
+from rules import (deep_resolve, stores_to, guarded, calls_to, field_writes, who_may_write, loops_over, basename, origins,
                    is_var, is_enum, lastname, reject_if, _resolve_local, reached_only_via)
 from props.scan_common import OUTDIRTY, ts_comparisons, check_prune_recheck, check_recheck_is_full, all_clean_loops, all_clean_base
 from rules import justified
@@ -155,7 +155,10 @@ def run(ctx):
     ctx.check('C03.O1', len(unwant) == 1, cn.name, 'CleanNode:unwant-sites', cn.loc, 'one un-want site')
     for e in unwant:
         facts = cn.facts_at(e)
-        ok = fact_holds(facts, is_var('outputs_dirty'), False) and \
+        recheck_clean = fact_holds(facts, is_var('outputs_dirty'), False) or fact_holds(
+            facts, lambda a: mentions_call(a, 'DependencyScan::RecomputeOutputsDirty') or
+            mentions_call(deep_resolve(cn, a), 'DependencyScan::RecomputeOutputsDirty'), False)
+        ok = recheck_clean and \
             (fact_holds(facts, lambda a: 'find_if' in dstr(a) and 'end' in dstr(a).split('find_if')[-1], True) or
              fact_holds(facts, lambda a: 'none_of' in dstr(a), True) or fact_holds(facts, lambda a: 'any_of' in dstr(a), False) or
              any(justified(prog, cn, fa, fp, all_clean_base(prog, cn)) for fp, fa in facts.values()))
@@ -181,10 +184,11 @@ def run(ctx):
               'EdgeWanted and CleanNode: %s' % {'%s/%s' % k: v for k, v in sig.items()})
     rc = list(cn.calls('DependencyScan::RecomputeOutputsDirty'))
     ctx.check('C03.O1', len(rc) == 1 and mentions_var(rc[0].get('args'), 'most_recent_input') and
-              mentions_var(rc[0].get('args'), 'outputs_dirty'), cn.name, 'CleanNode:recheck-args', cn.loc,
+              (mentions_var(rc[0].get('args'), 'outputs_dirty') or not rc[0].get('disc')), cn.name, 'CleanNode:recheck-args', cn.loc,
               'the outputs re-check uses the recomputed most_recent_input')
     rod = prog.fn('DependencyScan::RecomputeOutputsDirty')
-    ok = any(mentions_call(e.get('r'), 'RecomputeOutputsDirtyCache::all') for e in rod.events('asg'))
+    ok = any(mentions_call(e.get('r'), 'RecomputeOutputsDirtyCache::all') for e in rod.events('asg')) or \
+        any(mentions_call(deep_resolve(rod, e.get('e')), 'RecomputeOutputsDirtyCache::all') for e in rod.events('ret'))
     ctx.check('C03.O1', ok, rod.name, 'RecomputeOutputsDirty:not-all', rod.loc,
               'the re-check is the full output check (RecomputeOutputsDirtyCache::all)')
     # "prunes everything that depended only on it": a dependent edge of the cleaned node gets its re-check unless it is not
